@@ -735,6 +735,7 @@ func main() {
 		"class macro (20%): :import/:macro definitions and macro calls generating func/var/type declarations and statements inside bodies, oracle = the generator's expansion + Comp.Parse of a second interpreter printed with go/printer. "+
 		"Each source is preprocessed by cmd.Cmd.Main(-m -w -f ARG); 1 in 8 groups of programs is passed as a directory argument (EvalDir; three files, at most one of class macro: the files of a directory are one interpreter session and a macro is defined once). The written file must parse, have the expected imports/declarations (position-insensitive AST dump), "+
 		"compile and print the same output as the expected program (libraries batched into one binary; a few true `package main` programs built as executables). "+
+		"File layout (2/3 of the programs): items separated by one, two or three newlines; the last item is followed by a blank line, one newline, NOTHING (last byte of the file is not a newline: the line reader delivers the last chunk together with io.EOF), spaces, a line/block/same-line comment without final newline, or a semicolon. "+
 		"Non-trivial: >= 8 collected declarations of >= 3 kinds and non-empty program output; distinct by SHA-256 of the source. corpus/C39 (exact inputs of findings) runs first.")
 	wd := vh.NewWatchdog(rep, 10*time.Minute)
 	wd.Beat("start")
